@@ -1,14 +1,15 @@
 import sys, importlib, time
 sys.path.insert(0, '/verif')
 from pyvc.repoindex import RepoIndex
-FILES = ['streamz/core.py', 'streamz/sinks.py', 'streamz/orderedweakset.py', 'streamz/sources.py']
-idx = RepoIndex(FILES)
 mod = importlib.import_module(sys.argv[1])
 names = sys.argv[2:]
 for C in mod.ALL:
     if names and C.__name__ not in names:
         continue
     c = C()
+    files = list(getattr(c, 'files', None) or [c.file, 'streamz/core.py'])
+    idx = RepoIndex([f for i, f in enumerate(files) if f not in files[:i]])
+    if hasattr(c, 'prepare_index'): c.prepare_index(idx)
     t0 = time.time()
     try:
         res, info = c.verify(idx)
